@@ -29,6 +29,29 @@ pub fn explore(ex: &Ex) {
             ex.decode(l, "c10.maps", Ty::KeySet, Entry::Slice, &v);
         }
     });
+    // every key type x every registered key parameter label (common and per key type, and their
+    // neighbours) x every value shape, the label before and after kty: only labels 1..5 are
+    // interpreted, whatever the key type
+    {
+        use crate::refiana::Reg;
+        let labels = super::registry_labels(&[Reg::KeyParameter, Reg::OkpKeyParameter, Reg::Ec2KeyParameter, Reg::RsaKeyParameter, Reg::SymmetricKeyParameter, Reg::HssLmsKeyParameter, Reg::WalnutDsaKeyParameter]);
+        let kinds = super::kinds_plus();
+        let mut ktys: Vec<Item> = crate::refiana::table(Reg::KeyType).iter().map(|(_, v)| gen::i(*v as i128)).collect();
+        ktys.push(gen::t("kt"));
+        ex.bound("c10.registry", "ktys_x_labels_x_kinds", json!([ktys.len(), labels.len(), kinds.len()]));
+        par_partitions(ex.rep, labels, |lab, l| {
+            for kty in &ktys {
+                for k in &kinds {
+                    for m in [gen::map(vec![(gen::u(1), kty.clone()), (lab.clone(), k.clone())]), gen::map(vec![(lab.clone(), k.clone()), (gen::u(1), kty.clone())])] {
+                        let bytes = m.det();
+                        l.state(1);
+                        ex.decode(l, "c10.registry", Ty::Key, Entry::Slice, &bytes);
+                        ex.decode(l, "c10.registry", Ty::KeySet, Entry::Slice, &[&[0x81u8][..], &bytes].concat());
+                    }
+                }
+            }
+        });
+    }
     {
         use gen::{b, i, t, u};
         let typed = vec![(u(1), u(2)), (u(2), b(b"kid")), (u(3), i(-7)), (u(4), gen::arr(vec![u(2), u(1), t("x")])), (u(5), b(b"iv"))];
